@@ -14,7 +14,7 @@ ASSUMPTIONS = [
     "counting cuckoo: see the assumptions of C03 (symbolic fingerprints, second index an uninterpreted function, every random choice symbolic)",
 ]
 BOUNDS = {
-    "quick": "counting Bloom geometries (est,fpr)->cells/hashes: (1,.5)->2/1, (1,.3)->3/2, (2,.3)->6/2 with K = 2,3 keys; histories add/add/remove from fresh; counting cuckoo: capacity 2-3, bucket 1-2, max_swaps 1-2",
+    "quick": "counting Bloom geometries (est,fpr)->cells/hashes: (1,.5)->2/1, (1,.3)->3/2, (2,.3)->6/2 with K = 2,3 keys (hash values in [0, 2^64); for the 2- and 3-cell geometries also in [-2^64, 2^65]); histories add/add/remove from fresh; counting cuckoo: capacity 2-3, bucket 1-2, max_swaps 1-2",
     "thorough": "adds (3,.2)->11/3 with K = 2; counting cuckoo up to capacity 3 x bucket 2, max_swaps 3",
     "outside": "more cells/hashes/keys than listed; amounts above 2^20 (C16 covers the limits)",
 }
@@ -32,7 +32,8 @@ def step(ctx, cfg):
     K, op = cfg["K"], cfg["op"]
     c = CountingBloomFilter(est_elements=cfg["est"], false_positive_rate=cfg["fpr"])
     m, k = c.number_bits, c.number_hashes
-    H = [[ctx.hashval(f"h{q}_{i}", m) for i in range(k)] for q in range(K)]
+    lo, hi = (-(2 ** 64), 2 ** 65) if cfg.get("wide") else (0, 2 ** 64 - 1)      # wide: what a hand-written strategy may return
+    H = [[ctx.hashval(f"h{q}_{i}", m, lo, hi) for i in range(k)] for q in range(K)]
     Tc = [ctx.int(f"true{q}", 0, 2 ** 20) for q in range(K)]
     pos = [[H[q][i] % m for i in range(k)] for q in range(K)]
     if ctx.sym:
@@ -120,6 +121,9 @@ def jobs(tier):
     for est, fpr, K in geo:
         for op in ("add", "remove", "add-remove", "remove-absent"):
             js.append({"h": "c08.step", "cfg": {"est": est, "fpr": fpr, "K": K, "op": op}, "opts": {"cost": est * est * K * 10, "max_seconds": 1500}})
+    for est, fpr, K in [(1, .5, 2), (1, .3, 2)]:
+        for op in ("add", "remove", "add-remove", "remove-absent"):
+            js.append({"h": "c08.step", "cfg": {"est": est, "fpr": fpr, "K": K, "op": op, "wide": True}, "opts": {"cost": est * est * K * 10, "max_seconds": 1500}})
     for est, fpr in [(1, .5), (1, .3), (2, .3)]:
         for order in ("aba", "baa"):
             js.append({"h": "c08.history", "cfg": {"est": est, "fpr": fpr, "order": order}})
